@@ -169,6 +169,30 @@ def go_test(ov, pkg, test, env, timeout_s, extra_args=()):
     return p
 
 
+def crash_in_tree(log):
+    """If the harness process died of a Go panic / fatal error whose innermost non-runtime frame is code of
+    the tree under test (not a harness file, not a shim), return (what, frame); else None."""
+    m = re.search(r"^(panic: .*|fatal error: .*)$", log, re.M)
+    if not m:
+        return None
+    what = m.group(1)[:200]
+    rest = log[m.end():]
+    g = re.search(r"^goroutine \d+ [^\n]*\[running\]:\n", rest, re.M)
+    if not g:
+        return None
+    frames = re.findall(r"^\t(\S+\.go):(\d+)", rest[g.end():].split("\n\n", 1)[0], re.M)
+    for path, line in frames:
+        if "/go/pkg/mod/" in path or "/src/runtime/" in path or "/src/testing/" in path or path.startswith("/usr/") or "/toolchain@" in path:
+            continue
+        base = os.path.basename(path)
+        if base.startswith("zz_verif_") or "/internal/verifshim/" in path:
+            return None  # innermost tree frame is harness or shim code: a tool problem
+        if path.startswith(REPO + "/"):
+            return what, "%s:%s" % (os.path.relpath(path, REPO), line)
+        return None
+    return None
+
+
 def run_check(pid, tier, replay_case=None, quiet=False):
     cfg = checks()[pid]
     t0 = time.time()
@@ -208,9 +232,22 @@ def run_check(pid, tier, replay_case=None, quiet=False):
             print(log[-4000:])
             print("BUILD-BROKEN: %s does not build with the verif overlay (see %s)" % (cfg["pkg"], logp))
             return 2
-        # the harness died without writing a report: that is a crash of the code under test
-        # inside the harness process (fatal error, os.Exit, timeout) or a harness bug.
+        # the harness died without writing a report. If the process died of a panic whose innermost frame
+        # outside the Go runtime lies in the tree under test, the code under test crashed on an enumerated
+        # case (every property implies "does not crash"): that is reported as a violation with the log as
+        # replay. Anything else (harness bug, os.Exit, timeout, kill) stays a tool error.
         print(log[-6000:])
+        cr = crash_in_tree(log)
+        if cr is not None and replay_case is None:
+            rdir = os.path.join(VERIF, "replays", pid) if REPO == "/repo" else os.path.join(BUILD, "replays-scratch", pid)
+            os.makedirs(rdir, exist_ok=True)
+            key = "the harness process died inside the tree under test: %s at %s" % cr
+            rp = os.path.join(rdir, hashlib.sha1(key.encode()).hexdigest()[:12] + ".json")
+            with open(rp, "w") as f:
+                json.dump({"property": pid, "tier": tier, "key": key, "detail": log[-8000:], "replay": {"case": ""}}, f, indent=1)
+            print("  detail: " + key)
+            print("VIOLATION property=%s replay=%s" % (pid, rp))
+            return 1
         print("TOOL-ERROR: harness for %s produced no report (see %s)" % (pid, logp))
         return 2
     with open(out) as f:
